@@ -38,6 +38,15 @@ package reactive
 //@   call node.invalidate ghost spawnedInv = spawnedInv + 1
 //@   ensures (ninv && !tinv) <==> spawnedInv == 1
 //@   ensures spawnedInv <= 1
+// ... and n is released exactly when the call leaves it without any dependant (never merely because `to` was released:
+// other computations may still depend on n)
+//@   ghost empty bool
+//@   ghost spawnedRel int
+//@   entry ghost spawnedRel = 0
+//@   call Mutex.Unlock#1 ghost empty = len(n.out) == 0
+//@   call node.release assert arg0 == n && empty
+//@   call node.release ghost spawnedRel = spawnedRel + 1
+//@   ensures empty <==> spawnedRel == 1
 
 // handleInvalidate: either the node is already invalid and the handler is started, or the handler is stored - decided
 // and done in one critical section, so an invalidation cannot slip in between.
@@ -149,6 +158,14 @@ package reactive
 //@   call run assert !r.stop && arg1 == r.f
 //@   call node.handleInvalidate assert !r.stop && r.computation != nil && arg0 == addr(r.computation.node)
 //@   call node.release assert r.computation != nil && arg0 == addr(r.computation.node)
+// a computation that succeeded is stored - also when Stop arrived meanwhile: Stop (blocked on r.mu) releases what is stored,
+// and a computation that is neither stored nor released keeps its resources and timers for ever
+//@   ghost ranOK bool
+//@   entry ghost ranOK = false
+//@   ghost cur *computation
+//@   call run ghost ranOK = ret1 == nil
+//@   call run ghost cur = ret0
+//@   ensures ranOK ==> cur != nil && r.computation == cur
 
 //@ func Rerunner.Stop
 //@   requires r != nil
@@ -193,7 +210,7 @@ package reactive
 //@   entry ghost ntimer = 0
 //@   entry ghost nclean = 0
 //@   call NewResource assume ret0 != nil
-//@   call AfterFunc assert arg0 == d
+//@   call AfterFunc assert arg0 == d && isfunc(arg1, "Resource.Invalidate")       // the timer INVALIDATES the resource: the expiry sticks also when it fires before the dependency is registered (a strobe would be lost)
 //@   call AfterFunc ghost ntimer = ntimer + 1
 //@   call Resource.Cleanup assert arg0 == r
 //@   call Resource.Cleanup ghost nclean = nclean + 1
